@@ -735,3 +735,70 @@ def component_array(ctx):
     ctx.decided("callsites/found", "cover", sites >= 5, witness="%d call sites" % sites)
     ctx.decided("callsites/ask-for-the-active-array-of-their-own-table-and-stage", "requires@callsite", not bad,
                 witness="; ".join(bad))
+
+
+# ---------------------------------------------------------------------------------------------
+# the set-points reach the internal arrays: component arrays and pit entries of the lift / control components
+
+@unit("C03", "component_arrays", functions=[PCM + ":PressureControlComponent.create_component_array",
+                                            PCM + ":PressureControlComponent.create_pit_branch_entries",
+                                            CMP + ":Compressor.create_component_array", CMP + ":Compressor.create_pit_branch_entries",
+                                            PMP + ":Pump.create_pit_branch_entries"], engine="E2")
+def component_arrays(ctx):
+    ctx.assume("A1", "A4", "A6")
+    n = z3.Int("NCOMP")
+    i = z3.Int("i!row")
+    # component arrays: column <- table column, row by row
+    for mod, cname, tname, cols, mapping in (
+            (PCM, "PressureControlComponent", "press_control",
+             {"controlled_junction": "i", "control_active": "b", "in_service": "b"},
+             [("JUNCTS", "controlled_junction", "v"), ("CONTROLLED", "control_active", "b"), ("IN_SERVICE", "in_service", "b")]),
+            (CMP, "Compressor", "compressor", {"pressure_ratio": "f"}, [("PRESSURE_RATIO", "pressure_ratio", "v")])):
+        cref = S.get_module(mod).classes[cname]
+
+        def mk(_c=cref, _t=tname, _cols=cols):
+            return [_c, K.NetObj({_t: K.sym_table(_t, n, _cols)}), {}], {}
+        paths = T.run_paths(ctx, mod + ":%s.create_component_array" % cname, mk)
+        ok = len(paths) == 1 and paths[0].exc is None and tname in paths[0].args[0][2]
+        ctx.decided("%s/array-created" % cname, "cover", ok, witness=str([str(p.exc) for p in paths]))
+        if not ok:
+            continue
+        arr_ = paths[0].args[0][2].get(tname)
+        tbl = K.sym_table(tname, n, cols)
+        base = [n >= 1, i >= 0, i < n] + list(paths[0].facts)
+        for cconst, col, kind in mapping:
+            cc = class_const(cref, cconst)
+            if kind == "b":
+                ctx.ob("%s/array/%s-is-%s" % (cname, cconst, col), "ensures", base,
+                       (V.R(arr_.f(i, cc)) != 0) == B(tbl.columns[col].f(i)))
+            else:
+                ctx.ob("%s/array/%s-is-%s" % (cname, cconst, col), "ensures", base, K.eq_val(arr_.f(i, cc), tbl.columns[col].f(i)))
+    # pit entries
+    f, t, NB_ = z3.Int("f_blk"), z3.Int("t_blk"), z3.Int("NB")
+    k = z3.Int("k")
+    req = [f >= 0, f <= t, t <= NB_, k >= f, k < t]
+    B_LC_, B_BT, B_DIR = K.const(BR, "LOSS_COEFFICIENT"), K.const(BR, "BRANCH_TYPE"), K.const(BR, "DIRECTED")
+    PCB = K.const(BR, "PC")
+    for mod, cname, tname, cols in ((PCM, "PressureControlComponent", "press_control", {"control_active": "b", "loss_coefficient": "f"}),
+                                    (CMP, "Compressor", "compressor", {}), (PMP, "Pump", "pump", {})):
+        cref = S.get_module(mod).classes[cname]
+
+        def mk(_c=cref, _t=tname, _cols=cols):
+            return [_c, K.NetObj({_t: K.sym_table(_t, t - f, _cols)}), K.sym_pit("branch_pit", NB_, NCB, int_cols=INT_B)], {}
+        paths = T.run_paths(ctx, mod + ":%s.create_pit_branch_entries" % cname, mk, contracts={
+            BWO + ":BranchWOInternalsComponent.create_pit_branch_entries": lambda ev, a, kw: PitSlice(a[2], f, t)})
+        ok = len(paths) == 1 and paths[0].exc is None
+        ctx.decided("%s/entries/single-path" % cname, "cover", ok, witness=str([str(p.exc) for p in paths]))
+        if not ok:
+            continue
+        bp = paths[0].args[0][2]
+        bp0 = K.sym_pit("branch_pit", NB_, NCB, int_cols=INT_B)
+        tbl = K.sym_table(tname, t - f, cols)
+        a = req + list(paths[0].facts)
+        if cname == "PressureControlComponent":
+            ctx.ob("%s/entries/active-controller-row-is-a-pressure-control-row" % cname, "ensures", a,
+                   K.eq_val(bp.f(k, B_BT), ite(tbl.columns["control_active"].f(k - f), PCB, bp0.f(k, B_BT))))
+            ctx.ob("%s/entries/loss-coefficient" % cname, "ensures", a, K.eq_val(bp.f(k, B_LC_), tbl.columns["loss_coefficient"].f(k - f)))
+            ctx.ob("%s/entries/directed" % cname, "ensures", a, K.eq_val(bp.f(k, B_DIR), 1))
+        else:
+            ctx.ob("%s/entries/no-lumped-loss" % cname, "ensures", a, K.eq_val(bp.f(k, B_LC_), 0))
